@@ -19,7 +19,9 @@
 //! the first two adapter levels; deeper adapters are applied to a boxed iterator (`Box` forwards
 //! `next` / `nth` / `size_hint`), which keeps the set of instantiated types finite.
 //!
-//! Every script runs under a watchdog thread (a wrong override can make an adapter loop forever):
+//! Collecting steps stop after `cap_for(n)` items (n = what the reference holds), so a never-ending
+//! iterator shows up as a wrong answer, not as an exhausted memory.  Every script also runs under a
+//! watchdog thread (a wrong override can make `count` / `last` / `nth` / an adapter loop forever):
 //! on expiry the watcher writes the `V` lines straight to file descriptor 1 and ends the process;
 //! the executor asks `main.rs` to flush the transcript before such an op (`Exec::flush_before`).
 use std::sync::atomic::{AtomicU64, Ordering};
@@ -160,9 +162,11 @@ macro_rules! cur_common {
         fn hint(&self) -> (usize, Option<usize>) {
             self.it.size_hint()
         }
+        // Everything that collects is bounded by `cap` (a few times the number of items the reference
+        // holds): an iterator that never ends must not fill the memory before the watchdog fires.
         fn by_ref_take(&mut self, k: usize) -> Vec<String> {
             let f = self.f;
-            let v: Vec<_> = self.it.by_ref().take(k).collect();
+            let v: Vec<_> = self.it.by_ref().take(k.min(self.cap)).collect();
             v.into_iter().map(f).collect()
         }
         fn count(self: Box<Self>) -> usize {
@@ -173,21 +177,33 @@ macro_rules! cur_common {
             me.it.last().map(me.f)
         }
         fn collect(self: Box<Self>) -> Vec<String> {
-            let me = *self;
-            let v: Vec<_> = me.it.collect();
-            v.into_iter().map(me.f).collect()
+            // `collect()` of a `Vec` is a `next()` loop (plus `size_hint()` for the allocation, which the
+            // `h` step checks on its own); spelled out so that it can stop at `cap`
+            let mut me = *self;
+            let mut out = Vec::new();
+            while let Some(x) = me.it.next() {
+                out.push((me.f)(x));
+                if out.len() > me.cap {
+                    break;
+                }
+            }
+            out
         }
         fn fold(self: Box<Self>) -> Vec<String> {
             let me = *self;
-            let f = me.f;
+            let (f, cap) = (me.f, me.cap);
             me.it.fold(Vec::new(), |mut acc, x| {
                 acc.push(f(x));
+                if acc.len() > cap {
+                    // the only way out of a `fold` that never ends; reported as a panic of the script
+                    panic!("iterscript: fold ran past {} items", cap);
+                }
                 acc
             })
         }
         fn step_by_take(self: Box<Self>, s: usize, m: usize) -> Vec<String> {
             let me = *self;
-            let v: Vec<_> = me.it.step_by(s).take(m).collect();
+            let v: Vec<_> = me.it.step_by(s).take(m.min(me.cap)).collect();
             v.into_iter().map(me.f).collect()
         }
     };
@@ -211,12 +227,14 @@ macro_rules! cur_de {
 pub struct Fw<I, F, const D: u8> {
     it: I,
     f: F,
+    cap: usize,
 }
 
 /// Forward-only iterator behind a box (third adapter level and deeper).
 pub struct FwB<'a, T, F> {
     it: Box<dyn Iterator<Item = T> + 'a>,
     f: F,
+    cap: usize,
 }
 
 impl<'a, I, F> Cur<'a> for Fw<I, F, 0>
@@ -226,10 +244,10 @@ where
 {
     cur_common!();
     fn skip(self: Box<Self>, k: usize) -> Box<dyn Cur<'a> + 'a> {
-        Box::new(Fw::<_, _, 1> { it: self.it.skip(k), f: self.f })
+        Box::new(Fw::<_, _, 1> { it: self.it.skip(k), f: self.f, cap: self.cap })
     }
     fn take(self: Box<Self>, k: usize) -> Box<dyn Cur<'a> + 'a> {
-        Box::new(Fw::<_, _, 1> { it: self.it.take(k), f: self.f })
+        Box::new(Fw::<_, _, 1> { it: self.it.take(k), f: self.f, cap: self.cap })
     }
 }
 
@@ -240,10 +258,10 @@ where
 {
     cur_common!();
     fn skip(self: Box<Self>, k: usize) -> Box<dyn Cur<'a> + 'a> {
-        Box::new(Fw::<_, _, 2> { it: self.it.skip(k), f: self.f })
+        Box::new(Fw::<_, _, 2> { it: self.it.skip(k), f: self.f, cap: self.cap })
     }
     fn take(self: Box<Self>, k: usize) -> Box<dyn Cur<'a> + 'a> {
-        Box::new(Fw::<_, _, 2> { it: self.it.take(k), f: self.f })
+        Box::new(Fw::<_, _, 2> { it: self.it.take(k), f: self.f, cap: self.cap })
     }
 }
 
@@ -256,11 +274,11 @@ where
     cur_common!();
     fn skip(self: Box<Self>, k: usize) -> Box<dyn Cur<'a> + 'a> {
         let b: Box<dyn Iterator<Item = I::Item> + 'a> = Box::new(self.it.skip(k));
-        Box::new(FwB { it: b, f: self.f })
+        Box::new(FwB { it: b, f: self.f, cap: self.cap })
     }
     fn take(self: Box<Self>, k: usize) -> Box<dyn Cur<'a> + 'a> {
         let b: Box<dyn Iterator<Item = I::Item> + 'a> = Box::new(self.it.take(k));
-        Box::new(FwB { it: b, f: self.f })
+        Box::new(FwB { it: b, f: self.f, cap: self.cap })
     }
 }
 
@@ -271,11 +289,11 @@ where
     cur_common!();
     fn skip(self: Box<Self>, k: usize) -> Box<dyn Cur<'a> + 'a> {
         let me = *self;
-        Box::new(FwB { it: Box::new(me.it.skip(k)), f: me.f })
+        Box::new(FwB { it: Box::new(me.it.skip(k)), f: me.f, cap: me.cap })
     }
     fn take(self: Box<Self>, k: usize) -> Box<dyn Cur<'a> + 'a> {
         let me = *self;
-        Box::new(FwB { it: Box::new(me.it.take(k)), f: me.f })
+        Box::new(FwB { it: Box::new(me.it.take(k)), f: me.f, cap: me.cap })
     }
 }
 
@@ -286,11 +304,13 @@ impl<I: DoubleEndedIterator + ExactSizeIterator> DeIt for I {}
 pub struct De<I, F, const D: u8> {
     it: I,
     f: F,
+    cap: usize,
 }
 
 pub struct DeB<'a, T, F> {
     it: Box<dyn DeIt<Item = T> + 'a>,
     f: F,
+    cap: usize,
 }
 
 impl<'a, I, F> Cur<'a> for De<I, F, 0>
@@ -301,13 +321,13 @@ where
     cur_common!();
     cur_de!();
     fn skip(self: Box<Self>, k: usize) -> Box<dyn Cur<'a> + 'a> {
-        Box::new(De::<_, _, 1> { it: self.it.skip(k), f: self.f })
+        Box::new(De::<_, _, 1> { it: self.it.skip(k), f: self.f, cap: self.cap })
     }
     fn take(self: Box<Self>, k: usize) -> Box<dyn Cur<'a> + 'a> {
-        Box::new(De::<_, _, 1> { it: self.it.take(k), f: self.f })
+        Box::new(De::<_, _, 1> { it: self.it.take(k), f: self.f, cap: self.cap })
     }
     fn rev(self: Box<Self>) -> Option<Box<dyn Cur<'a> + 'a>> {
-        Some(Box::new(De::<_, _, 1> { it: self.it.rev(), f: self.f }))
+        Some(Box::new(De::<_, _, 1> { it: self.it.rev(), f: self.f, cap: self.cap }))
     }
 }
 
@@ -321,15 +341,15 @@ where
     cur_de!();
     fn skip(self: Box<Self>, k: usize) -> Box<dyn Cur<'a> + 'a> {
         let b: Box<dyn DeIt<Item = I::Item> + 'a> = Box::new(self.it.skip(k));
-        Box::new(DeB { it: b, f: self.f })
+        Box::new(DeB { it: b, f: self.f, cap: self.cap })
     }
     fn take(self: Box<Self>, k: usize) -> Box<dyn Cur<'a> + 'a> {
         let b: Box<dyn DeIt<Item = I::Item> + 'a> = Box::new(self.it.take(k));
-        Box::new(DeB { it: b, f: self.f })
+        Box::new(DeB { it: b, f: self.f, cap: self.cap })
     }
     fn rev(self: Box<Self>) -> Option<Box<dyn Cur<'a> + 'a>> {
         let b: Box<dyn DeIt<Item = I::Item> + 'a> = Box::new(self.it.rev());
-        Some(Box::new(DeB { it: b, f: self.f }))
+        Some(Box::new(DeB { it: b, f: self.f, cap: self.cap }))
     }
 }
 
@@ -341,36 +361,41 @@ where
     cur_de!();
     fn skip(self: Box<Self>, k: usize) -> Box<dyn Cur<'a> + 'a> {
         let me = *self;
-        Box::new(DeB { it: Box::new(me.it.skip(k)), f: me.f })
+        Box::new(DeB { it: Box::new(me.it.skip(k)), f: me.f, cap: me.cap })
     }
     fn take(self: Box<Self>, k: usize) -> Box<dyn Cur<'a> + 'a> {
         let me = *self;
-        Box::new(DeB { it: Box::new(me.it.take(k)), f: me.f })
+        Box::new(DeB { it: Box::new(me.it.take(k)), f: me.f, cap: me.cap })
     }
     fn rev(self: Box<Self>) -> Option<Box<dyn Cur<'a> + 'a>> {
         let me = *self;
-        Some(Box::new(DeB { it: Box::new(me.it.rev()), f: me.f }))
+        Some(Box::new(DeB { it: Box::new(me.it.rev()), f: me.f, cap: me.cap }))
     }
 }
 
-/// A forward-only real iterator.
-pub fn forward<'a, I, F>(it: I, f: F) -> Box<dyn Cur<'a> + 'a>
+/// How many items a collecting step may gather from an iterator whose reference holds `n` items.
+pub fn cap_for(n: usize) -> usize {
+    4 * n + 64
+}
+
+/// A forward-only real iterator (`cap`: see `cap_for`).
+pub fn forward<'a, I, F>(it: I, f: F, cap: usize) -> Box<dyn Cur<'a> + 'a>
 where
     I: Iterator + 'a,
     I::Item: 'a,
     F: Fn(I::Item) -> String + Copy + 'a,
 {
-    Box::new(Fw::<I, F, 0> { it, f })
+    Box::new(Fw::<I, F, 0> { it, f, cap })
 }
 
 /// A double-ended, exact-size real iterator.
-pub fn double_ended<'a, I, F>(it: I, f: F) -> Box<dyn Cur<'a> + 'a>
+pub fn double_ended<'a, I, F>(it: I, f: F, cap: usize) -> Box<dyn Cur<'a> + 'a>
 where
     I: DeIt + 'a,
     I::Item: 'a,
     F: Fn(I::Item) -> String + Copy + 'a,
 {
-    Box::new(De::<I, F, 0> { it, f })
+    Box::new(De::<I, F, 0> { it, f, cap })
 }
 
 /// The reference: the already formatted items in a `Vec`, iterated by `std::vec::IntoIter`.
@@ -378,7 +403,8 @@ pub fn reference(items: Vec<String>) -> Box<dyn Cur<'static>> {
     fn id(s: String) -> String {
         s
     }
-    double_ended(items.into_iter(), id as fn(String) -> String)
+    let cap = cap_for(items.len());
+    double_ended(items.into_iter(), id as fn(String) -> String, cap)
 }
 
 // ---------------------------------------------------------------------------
@@ -472,7 +498,8 @@ pub fn first_difference(steps: &[Step], real: &[String], reference: &[String]) -
                     return Some(format!("step {} (`{}`): size_hint {} does not bound the {} items that remain", j, st.token(), a, &b[2..]));
                 }
                 if a != b {
-                    return Some(format!("step {} (`{}`): the iterator answers {} but a Vec of the indexed items answers {}", j, st.token(), a, b));
+                    let short = |s: &str| if s.len() > 240 { format!("{}...({} chars)", &s[..240], s.len()) } else { s.to_string() };
+                    return Some(format!("step {} (`{}`): the iterator answers {} but a Vec of the indexed items answers {}", j, st.token(), short(a), short(b)));
                 }
             }
             (None, None) => return None,
@@ -678,14 +705,19 @@ mod tests {
         for s in enum_scripts(2, true, 7) {
             let steps = parse(&s).unwrap();
             let v: Vec<u32> = (0..5).collect();
-            let (obs, diff) = run_both("T", "vec", &steps, &s, double_ended(v.iter(), |x: &u32| x.to_string()), items.clone(), true);
+            let (obs, diff) = run_both("T", "vec", &steps, &s, double_ended(v.iter(), |x: &u32| x.to_string(), cap_for(5)), items.clone(), true);
             assert!(diff.is_none(), "{} {:?} {}", s, diff, obs);
         }
         let steps = parse("n,t1,h,s1,y1,p2.9").unwrap();
         let v: Vec<u32> = (0..9).collect();
-        let log = run(forward(v.iter(), |x: &u32| x.to_string()), &steps).unwrap();
+        let log = run(forward(v.iter(), |x: &u32| x.to_string(), 100), &steps).unwrap();
         assert_eq!(log.join(" "), "n=0 t1=2 h=6..6 s1 y1=[4] p2.9=[5;7]");
         assert!(parse("c,n").is_none() && parse("p0.3").is_none() && parse("q").is_none());
-        assert!(run(forward(v.iter(), |x: &u32| x.to_string()), &parse("b").unwrap()).is_err());
+        assert!(run(forward(v.iter(), |x: &u32| x.to_string(), 100), &parse("b").unwrap()).is_err());
+        // a never-ending iterator stops at the cap
+        let log = run(forward(std::iter::repeat(7u32), |x: u32| x.to_string(), 10), &parse("a").unwrap()).unwrap();
+        assert_eq!(log[0].split(';').count(), 11);
+        let log = run(forward(std::iter::repeat(7u32), |x: u32| x.to_string(), 10), &parse("n,p2.18446744073709551615").unwrap()).unwrap();
+        assert_eq!(log[1].split(';').count(), 10);
     }
 }
